@@ -82,7 +82,8 @@ add("Live","C04","C04_internal_steps_terminate","never dropped (liveness half, 2
 add("Live","C19","C19_shutdown_no_deadlock","while stopping, the hand-over never deadlocks: until the dispatcher has exited, an internal step is enabled, or a work function is executing, or the monitor waits for a subscriber.",
  f"∀ {R}, s.ctxDone = true → s.disp ≠ .exited →\n    internalActs s ≠ [] ∨ s.running ≠ [] ∨ (∃ e r, s.mon = .fanout e r)")
 
-base = "/verif/lean/TV"
+import sys
+base = sys.argv[1] if len(sys.argv) > 1 else "/verif/lean/TV"
 hdr = {"Safety": "import TV.Model.WorkQueue\n", "Heap": "import TV.Model.WorkQueue\nimport TV.Proofs.GoHeap\n", "Live": "import TV.Model.WorkQueue\n"}
 for g, items in T.items():
     with open(f"/tmp/wqwork/spec_{g}.lean", "w") as f:
@@ -123,16 +124,20 @@ example : ∃ s, runActs (init 1 1) [.enqueue 1 0 false, .recv 0, .take, .stop, 
   refine ⟨_, rfl, ?_⟩; decide
 ''',
 }
+MONSOUND = {"C04": "\n/-! ### the model passes the monitor the driver applies to the implementation (no false alarm on a conforming implementation) -/\ntheorem C04_model_passes_monitor (W L : Nat) (s : St) (h : Reach W L s) :\n    Mon.atMostOnce (Driver.WQ.obsOf s) = true := MonSound.atMostOnce_sound h\n", "C09": "\n/-! ### the model passes the monitors the driver applies to the implementation\n\n`mstOf s` is the bookkeeping the driver has recorded from the script when the implementation has answered like\nthe model; `obsOf s` is the model's own observation. -/\ntheorem C09_model_passes_monitor_workers (W L : Nat) (s : St) (h : Reach W L s) :\n    Mon.workersOK (MonSound.mstOf s) (Driver.WQ.obsOf s) = true := MonSound.workersOK_sound h\n\n/-- (false for `L = 0`: the dispatcher then pops an empty queue — witness in TV/Proofs/MonitorWQ.lean.) -/\ntheorem C09_model_passes_monitor_work_conserving (W L : Nat) (s : St) (h : Reach W L s) (hL : 1 ≤ L) (hq : quiescent s) :\n    Mon.workConserving (MonSound.mstOf s) (Driver.WQ.obsOf s) = true := MonSound.workConserving_sound hL h hq\n\ntheorem C09_model_passes_monitor_backpressure (W L : Nat) (s : St) (h : Reach W L s) (hs : s.stopped = false) :\n    Mon.outstanding (MonSound.mstOf s) (Driver.WQ.obsOf s) ≤ (MonSound.mstOf s).Lmax + 2 * (MonSound.mstOf s).W + 1 :=\n  MonSound.backPressureUpper_sound h hs\n", "C14": "\n/-! ### the model passes the monitor the driver applies to the implementation -/\ntheorem C14_model_passes_monitor (W L : Nat) (s : St) (h : Reach W L s) :\n    Mon.errorsOK (MonSound.mstOf s) (Driver.WQ.obsOf s) = true := MonSound.errorsOK_sound h\n", "C16": "\n/-! ### the model passes the monitor the driver applies to the implementation -/\ntheorem C16_model_passes_monitor (W L : Nat) (s : St) (h : Reach W L s) :\n    Mon.dequeuedNeverStart (MonSound.mstOf s) (Driver.WQ.obsOf s) [] = true := MonSound.dequeuedNeverStart_sound h\n", "C19": "\n/-! ### the model passes the monitor the driver applies to the implementation: whatever starts after Stop or Break\n    was submitted before it (`s0.nextId` = ordinals issued when Stop/Break was called, as the driver records it) -/\ntheorem C19_model_passes_monitor (W L : Nat) (s0 s1 s : St) (a : Act) (h0 : Reach W L s0) (ha : a = .stop ∨ a = .break_)\n    (h1 : step? s0 a = some s1) (hsteps : MonSound.Steps s1 s) :\n    (Driver.WQ.obsOf s).started.all (· < s0.nextId) = true := MonSound.afterStop_at_stop_sound h0 ha h1 hsteps\n"}
 imports = {"C04":["Safety","Live"],"C05":["Heap"],"C09":["Safety"],"C14":["Safety"],"C16":["Safety","Heap"],"C19":["Safety","Live"]}
 for prop in titles:
     with open(f"{base}/Properties/{prop}.lean","w") as f:
         for g in imports[prop]:
             f.write(f"import TV.Proofs.WorkQueue{g}\n")
+        if prop in MONSOUND:
+            f.write("import TV.Proofs.MonitorWQ\n")
         f.write(f"/-!\n# {prop} — {titles[prop]}\n\nStatements are over the labelled transition system of TV/Model/WorkQueue.lean: every worker count\n`W ≥ 1`, queue length `L ≥ 1`, any number of producers, items and subscribers, any priorities,\nevery interleaving (`Reach`); Stop/Break/Dequeue/SetPriority injected at every position.\n-/\nnamespace TV.{prop}\nopen TV.WorkQueue TV.GoHeap\n\n")
         for g, items in T.items():
             for p2, name, doc, stmt in items:
                 if p2 != prop: continue
                 f.write(f"/-- {doc} -/\ntheorem {name} :\n    {stmt.replace('{{','{').replace('}}','}')} := {g}.{name}\n\n")
         f.write(extra.get(prop,""))
+        f.write(MONSOUND.get(prop,""))
         f.write(f"\nend TV.{prop}\n")
 print({g: len(v) for g,v in T.items()})
